@@ -29,7 +29,7 @@ PRF = "proof { match self { %s => { vstd::std_specs::vec::axiom_vec_index_decrea
 POST = "proof { assert(strs(vx_out@) =~= sdesc_seq(values@, dstore())); }"
 POSTP = "proof { assert(pairs(vx_out@) =~= sdesc_pairs(values@, dstore())); }"
 DESCRIBE = [
-  F('ExprAST::describe', props=['C18', 'C01'],
+  F('ExprAST::describe', props=['C18', 'C01!'],
     spec="        ensures r@ == sdesc(*self, dstore()),  // @C18 describe.dispatch\n        decreases self,",
     ops=[
       Ins('entry', '', """        proof { broadcast use axiom_str_to_string, axiom_refstr_to_string; reveal_strlit(""); assert(""@ =~= Seq::<char>::empty());
